@@ -449,3 +449,6 @@ def run(tier, seed):
              "bounds": "pairs+triples: A5^1, A5^2, {-2,-1,1}^3, V3^3, {0,1}^4, {0,1}^5, {0,1}^6 and long vectors m=7,9,12 differing from a constant in <=2 coordinates (Pareto and two epsilon lists), near-tie alphabet NEAR^1, NEAR^2 for Pareto (thorough: A5^3, {0,1}^5, {0,1}^6, NEAR^3) x markers",
              "near_tie_alphabet": [repr(v) for v in NEAR]}
     return col, extra
+
+
+RULE += (' One comparator object serving vectors of changing length (every order of lengths 1..4, plus 5) for Pareto and five epsilon lists; comparators reached through constructor options (ParetoDominance(epsilons=...), the two comparators a TournamentSelector builds) over A5^1, A5^2, V3^3.')
